@@ -5,6 +5,7 @@ package literal
 import (
 	"regexp/syntax"
 	"unicode"
+	"unicode/utf8"
 )
 
 // ExtractorConfig configures literal extraction limits.
@@ -977,37 +978,52 @@ func (e *Extractor) generateCaseFoldVariants(foldSets [][]rune, prefixLen int) *
 // literal, not its beginning. The head of (?i)abcdefg---sxyz is no suffix of
 // anything the pattern matches; .*(?i:abcdefg---sxyz) found nothing.
 func (e *Extractor) expandCaseFoldLiteralTail(runes []rune) *Seq {
-	seq := e.expandCaseFoldLiteral(runes)
-	trimmed := false
-	for i := 0; i < seq.Len(); i++ {
-		if !seq.Get(i).Complete {
-			trimmed = true
-		}
-	}
-	if !trimmed {
-		return seq
-	}
-	// Longest tail whose spellings fit
+	// Longest tail whose spellings fit MaxLiterals and whose longest spelling
+	// fits MaxLiteralLen. The tail is computed here, from the end, and never by
+	// cutting a longer literal down from its beginning: the first 64 bytes of
+	// .*(?i:abc<70 digits>) are no suffix of anything the pattern matches.
 	product := 1
+	byteLen := 0
 	tail := 0
 	for i := len(runes) - 1; i >= 0; i-- {
-		product *= len(caseFolds(runes[i]))
-		if product > e.config.MaxLiterals {
+		folds := caseFolds(runes[i])
+		product *= len(folds)
+		width := 0
+		for _, r := range folds {
+			if n := utf8.RuneLen(r); n > width {
+				width = n
+			}
+		}
+		if product > e.config.MaxLiterals || byteLen+width > e.config.MaxLiteralLen {
 			break
 		}
+		byteLen += width
 		tail++
 	}
 	if tail == 0 {
 		return NewSeq()
 	}
-	foldSets := make([][]rune, tail)
-	for i := 0; i < tail; i++ {
-		foldSets[i] = caseFolds(runes[len(runes)-tail+i])
+	// The spellings of the tail, in the order generateCaseFoldVariants produces them.
+	variants := [][]rune{{}}
+	for i := len(runes) - tail; i < len(runes); i++ {
+		var next [][]rune
+		for _, head := range variants {
+			for _, r := range caseFolds(runes[i]) {
+				extended := make([]rune, len(head)+1)
+				copy(extended, head)
+				extended[len(head)] = r
+				next = append(next, extended)
+			}
+		}
+		variants = next
 	}
-	result := e.generateCaseFoldVariants(foldSets, tail)
-	for i := range result.literals {
-		result.literals[i].Complete = false
+	// Complete only if nothing was cut off: the tail is the whole literal.
+	whole := tail == len(runes)
+	lits := make([]Literal, 0, len(variants))
+	for _, v := range variants {
+		lits = append(lits, NewLiteral(runeSliceToBytes(v), whole))
 	}
+	result := NewSeq(lits...)
 	result.Dedup()
 	return result
 }
@@ -1079,13 +1095,13 @@ func (e *Extractor) expandCharClass(re *syntax.Regexp) *Seq {
 		lo, hi := re.Rune[i], re.Rune[i+1]
 		for r := lo; r <= hi; r++ {
 			bytes := []byte(string(r))
-			// Truncate if exceeds MaxLiteralLen
-			complete := true
+			// A rune whose encoding does not fit MaxLiteralLen: its first bytes
+			// would do as a prefix but are no suffix of the rune, and this
+			// expansion serves both directions, so report "no information".
 			if len(bytes) > e.config.MaxLiteralLen {
-				bytes = bytes[:e.config.MaxLiteralLen]
-				complete = false
+				return NewSeq()
 			}
-			lits = append(lits, NewLiteral(bytes, complete))
+			lits = append(lits, NewLiteral(bytes, true))
 
 			// Over the MaxLiterals limit: a partial expansion would not cover
 			// the class, so report "no information" instead.
